@@ -87,10 +87,21 @@ def run(cx):
             inst.violation(nf.path, "initial nofeedback timer", "the initial no-feedback timer is not now + 2000 ms")
 
     with cx.instance("C14.c", "T2/T7 floor", "every write of the allowed rate outside the constructor is floored (or is the ceiling clamp); halvings are max(X/2, floor)", floor=8) as inst:
+        MR = r"half_connection::send_rate::MINIMUM_RATE"
+        INIT = r"send_rate::compute_initial_send_rate\(SendRateComp::update_rtt\(arg1,send_rate::ms_to_s\(arg3\.rtt_ms\)\)\.0\)"
+        TCP = r"arg1\.mode@ThroughputEqn\.0\.send_rate_tcp"
+        def mn(a, b):
+            return r"(?:Ord::min\(%s,%s\)|Ord::min\(%s,%s\))" % (a, b, b, a)
+        def mx(a, b):
+            return r"(?:Ord::max\(%s,%s\)|Ord::max\(%s,%s\))" % (a, b, b, a)
+        # exact forms (RFC 5348 4.3 step 5, 4.4 step 1, 6.3.1): the receive-rate limit caps (min), the floor lifts (max)
         OKF = [
-            (r"Ord::max\(.*,half_connection::send_rate::MINIMUM_RATE\)", "max(., s/64)"),
-            (r"Ord::max\(.*,send_rate::compute_initial_send_rate\(.*\)\)", "max(., W_init/R) (slow start)"),
-            (r"send_rate::compute_initial_send_rate\(.*\)", "W_init/R (first feedback)"),
+            (mx(mn(r"var\d+", r"var\d+"), MR), "first loss: max(min(X_target, recv_limit), s/64)"),
+            (mx(mn(r"mul\(2,arg1\.send_rate\)", r"var\d+"), INIT), "slow start: max(min(2X, recv_limit), W_init/R)"),
+            (INIT, "first feedback: W_init/R"),
+            (mx(mn(TCP, r"var\d+"), MR), "equation phase: max(min(X_Bps, recv_limit), s/64)"),
+            (mx(r"div\(arg1\.send_rate,2\)", MR), "no feedback: max(X/2, s/64)"),
+            (mx(mn(TCP, mx(r"div\(" + mn(TCP, r"u32::saturating_mul\(RecvRateSet::max\(arg1\.recv_rate_set\),2\)") + r",2\)", MR)), MR), "no feedback (equation phase): max(min(X_Bps, max(limit/2, s/64)), s/64)"),
             (r"Ord::min\(arg1\.send_rate,arg1\.max_send_rate\)|Ord::min\(arg1\.max_send_rate,arg1\.send_rate\)", "ceiling clamp"),
         ]
         n = 0
@@ -110,14 +121,29 @@ def run(cx):
                         break
                 inst.site(b, l, "send_rate = %s" % e[:80], {"form": form})
                 if form is None:
-                    inst.violation(b.path, "send_rate write without floor", "allowed rate is set to `%s` with no floor: it can fall below s/64" % e[:160], at=b.span_at(l))
+                    inst.violation(b.path, "send_rate write without floor", "allowed rate is set to `%s`, which is none of the RFC 5348 update forms (receive-rate limit as a cap, s/64 or W_init/R as a floor)" % e[:160], at=b.span_at(l))
                 if "div(arg1.send_rate,2)" in e and not re.fullmatch(r"Ord::max\(div\(arg1\.send_rate,2\),half_connection::send_rate::MINIMUM_RATE\)", e):
                     inst.violation(b.path, "halving", "a halving of the rate is not max(X/2, s/64): `%s`" % e[:120], at=b.span_at(l))
         if n < 8:
             inst.violation("half_connection::send_rate::SendRateComp", "send_rate writes", "fewer send_rate writes than counted by hand (anchor)")
+        # recv_limit = 2*max(X_recv_set) unless the loss rate increased (RFC 5348 4.3 step 4)
+        hf = R.body("SendRateComp::handle_feedback")
+        fa = cx.fa(hf)
+        lim = {}
+        for l in range(len(hf.locals)):
+            ds = hf.defs.get(l, [])
+            vals = [(loc, show(hf.rvalue_expr(node["rv"])) if kind == "assign" else show(hf.call_expr(node))) for loc, kind, node in ds]
+            if len(vals) == 3 and all("RecvRateSet::" in v for _, v in vals):
+                for loc, v in vals:
+                    lim[re.sub(r"\(.*", "", v.replace("u32::saturating_mul(", "2x "))] = v
+        inst.site(hf, None, "recv_limit forms: %s" % sorted(lim))
+        if sorted(lim) != ["2x RecvRateSet::data_limited_update", "2x RecvRateSet::rate_limited_update", "RecvRateSet::loss_increase_update"]:
+            inst.violation(hf.path, "recv_limit", "recv_limit is computed as %s; expected 2*X_recv_set except after a loss increase" % sorted(lim))
 
     from props.C13 import ceiling_clamp
     ceiling_clamp(cx, "C14.d")
+    from props.shared import ack_processing_presence
+    ack_processing_presence(cx, "C14.f")
 
     with cx.instance("C14.e", "T5 LOOP", "the throughput-equation inversion loop has a termination variant", floor=1) as inst:
         b = R.body(SR + "eval_tcp_throughput_inv")
